@@ -30,7 +30,7 @@ func Class(msg string) string {
 func RunBatch(bound int, maxExecs int64, names []string) []schedrun.Result {
 	dir := filepath.Join(ev.Root, ".work", "scen")
 	os.MkdirAll(dir, 0o755)
-	const per = 40
+	const per = 12
 	var chunks [][]string
 	for i := 0; i < len(names); i += per {
 		j := i + per
